@@ -87,6 +87,9 @@ func (p *Peer) Run(o *Opts, ops []string) *Outcome {
 			err = p.recvClientHello(o)
 		case op == "rFLIGHT":
 			err = p.recvFlight(o, out)
+			if ne, ok := err.(interface{ Timeout() bool }); ok && ne.Timeout() {
+				err = nil // nothing came: the other side is waiting for us; carry on with the script
+			}
 		case op == "rAPP":
 			err = p.recvApp()
 		case op == "CCS":
@@ -130,7 +133,9 @@ func (p *Peer) body(o *Opts, kind string, honest func() ([]byte, error)) ([]byte
 	}
 	b, err := honest()
 	if err != nil {
-		return nil, err
+		// the message cannot be built honestly in this state (e.g. a key exchange before the
+		// certificates): send a well-framed stand-in so that the script can go on
+		b = p.rnd(64)
 	}
 	if o.Mutate != nil {
 		b = o.Mutate(kind, b)
